@@ -29,7 +29,7 @@ def chunks(xs, n):
 def run_scenarios_parallel(binary, scenarios, events, wd, par=None, timeout=1800, extra=(), env=None):
     """Run scenarios in `par` harness processes (rapid's flags are process-global, so one
     process runs its scenarios sequentially).  Returns list of trace paths."""
-    par = par or min(NCPU, max(1, len(scenarios) // 8))
+    par = par or min(NCPU, max(1, len(scenarios) // 4))
     parts = chunks(scenarios, par)
     paths = []
 
@@ -168,7 +168,7 @@ ENGINE_MC = [("EngineMC", "EngineMC.cfg", "hold", ("quick", "thorough")),
 
 
 def engine_check(pid, tier, seed, replay, gen, rule, design_ref, assumptions, keep=False, mc=ENGINE_MC, events=core.ENGINE_EVENTS,
-                 module="EngineTrace", cfg=TRACE_CFG):
+                 module="EngineTrace", cfg=TRACE_CFG, env=None, extra=()):
     t0 = time.time()
     if replay:
         with open(replay) as f:
@@ -180,7 +180,7 @@ def engine_check(pid, tier, seed, replay, gen, rule, design_ref, assumptions, ke
     binary = core.build_harness()
     wd = core.scratch("verif-run-")
     try:
-        paths = run_scenarios_parallel(binary, scenarios, events, wd)
+        paths = run_scenarios_parallel(binary, scenarios, events, wd, env=env, extra=extra)
         if keep:
             shutil.copytree(wd, os.path.join("/tmp", f"keep-{pid}"), dirs_exist_ok=True)
         t1 = time.time()
@@ -226,6 +226,8 @@ RULES_TEXT = {
     "C01": "one case = one Check of a scripted property (template x seed x checks x minimization mode incl. deterministic cut); non-trivial = a failure was found and reported, so the report/persist/final-replay obligations were exercised",
     "C02": "one case = one Check with one failure kind in one callback context at one position (value-keyed test cases); non-trivial = the falsifying signal was actually raised in an executed test case",
     "C05": "one case = one Check of a (multi-site) scripted property; non-trivial = a failure was found and the minimizer ran (accept events checked for strict short-lex decrease, same site, result <= original)",
+    "C06": "one case = a three-run history fail -> re-run without flags -> re-run in a clean directory with -rapid.failfile, over test names (unicode, separators, reserved characters, device names, long), bodies (incl. the empty bitstream) and captured outputs (nothing, arbitrary bytes, '#' lines, CR/LF, lines of 64 KiB..1 MiB); non-trivial = the first run saved a fail file",
+    "C17": "one case = a two-run history with a fixed seed: clean directory, then the same with 1..5 unusable files (random bytes, truncations, byte mutations, huge/negative numbers, missing/extra fields, other and prefix-extended versions, comments only, empty, a directory, a 64 KiB+ line, now-passing, now-invalid, one-character word, octal/binary words); non-trivial = files were offered to the engine",
     "C07": "one case = a two-run history (run, then re-run with the printed seed / the same fixed seed); non-trivial = the first run reported a failure (or both runs completed for same-seed pairs)",
     "C09": "one case = one Check with given N, skip pattern and fail files present; non-trivial = more than one invocation happened",
     "C10": "one case = one Check (or fuzz call / two-run history) of a scripted property that registers cleanups of kinds {plain, panics, registers another, nested, Errorf, Skip} in the body and in (retried) Custom functions and samples T.Context() in body, cleanup and afterwards; every invocation of every kind (generation, reproduction, minimization try/confirm, capture, final replay, fail-file runs, fuzz) is one bracket instance; non-trivial = cleanups or contexts were used",
@@ -306,7 +308,56 @@ def c08(tier, seed, replay, keep):
 SM_MC = [("RepeatSM", "RepeatSM.cfg", "hold", ("quick", "thorough")),
          ("RepeatSM", "RepeatSM_broken.cfg", "violate", ("quick", "thorough"))]
 
-TABLE = {"C08": c08, "C10": c10, "C01": c01, "C02": c02, "C05": c05, "C07": c07, "C09": c09, "C11": c11}
+def rule_persist(evs):
+    saves = [e for e in evs if e["ev"] == "h.save"]
+    loads = [e for e in evs if e["ev"] == "h.ff.load"]
+    if not saves:
+        return None
+    return f"failure saved ({saves[0]['buf']['n']} words), {len(loads)} fail-file loads in later runs"
+
+
+def rule_ff(evs):
+    loads = [e for e in evs if e["ev"] == "h.ff.load"]
+    if not loads:
+        return None
+    return f"{len(loads)} files offered, {sum(1 for e in loads if not (e['ok'] and e['sameVersion']))} unusable at load, reported={reported(evs)}"
+
+
+def other_fs_tmpdir():
+    """A temp dir on another file system than the scenarios' working directories (the save must not depend on it)."""
+    try:
+        if os.path.isdir("/dev/shm") and os.stat("/dev/shm").st_dev != os.stat("/tmp").st_dev and os.access("/dev/shm", os.W_OK):
+            return "/dev/shm"
+    except OSError:
+        pass
+    return None
+
+
+def c06(tier, seed, replay, keep):
+    alt = other_fs_tmpdir()
+    env, extra, cleanup = None, (), None
+    assume = list(ASSUME_COMMON)
+    if alt:
+        import tempfile
+        cleanup = tempfile.mkdtemp(prefix="verif-tmpdir-", dir=alt)
+        work = core.scratch("verif-work-")
+        env, extra = {"TMPDIR": cleanup}, ("-verif.work", work)
+        assume.append("the harness runs with TMPDIR on another file system (%s) than the tests' directories" % alt)
+    else:
+        assume.append("no second writable file system found: saving with TMPDIR on another file system was not exercised")
+    try:
+        return engine_check("C06", tier, seed, replay, scen.c06, rule_persist, "4/C06", assume, keep, env=env, extra=extra)
+    finally:
+        if cleanup:
+            shutil.rmtree(cleanup, ignore_errors=True)
+            shutil.rmtree(work, ignore_errors=True)
+
+
+def c17(tier, seed, replay, keep):
+    return engine_check("C17", tier, seed, replay, scen.c17, rule_ff, "4/C17", ASSUME_COMMON, keep)
+
+
+TABLE = {"C06": c06, "C17": c17, "C08": c08, "C10": c10, "C01": c01, "C02": c02, "C05": c05, "C07": c07, "C09": c09, "C11": c11}
 
 
 def run(pid, tier, seed, replay, keep=False):
